@@ -155,9 +155,83 @@ func c01Decoders(w *World, r *Report) {
 				}
 			}
 			r.Check(used, "R11", fmt.Sprintf("%s#decoded-local#%d", fk, nLocal), w.ipos(c), "a child element is decoded into a local variable that is never looked at again: the element is consumed and dropped, the parsed value lacks it", "the decoded local is stored or read afterwards")
+			// fresh per element: a target filled inside the token loop is a variable of that iteration, or is reset there
+			if cb := c.Block(); blockReaches(cb, cb) && al.Parent() == c.Parent() {
+				fresh := al.Block() == cb || (blockReaches(cb, al.Block()) && blockReaches(al.Block(), cb))
+				why := ""
+				if !fresh {
+					reset := false
+					for _, rf := range *al.Referrers() {
+						if st, ok := rf.(*ssa.Store); ok && st.Addr == ssa.Value(al) && blockReaches(cb, st.Block()) && (st.Block() == cb || st.Block().Dominates(cb)) {
+							reset = true
+						}
+					}
+					switch {
+					case !reset:
+						why = "a child element is decoded inside the token loop into a variable declared outside it: encoding/xml neither clears its target nor truncates its slices, so a second child of the same name is merged with the first"
+					case addrRetained(al, c, via):
+						why = "a child element is decoded inside the token loop into a variable declared outside it whose address is kept: every such child ends up as the same object"
+					}
+					if why != "" && addrRetained(al, c, via) {
+						why += " (and its address is retained, so all of them alias one object holding the last one read)"
+					}
+				}
+				r.Check(why == "", "R11", fmt.Sprintf("%s#decoded-local#%d#fresh", fk, nLocal), w.ipos(c), why, "the target is a variable of the loop iteration")
+			}
 		})
 	}
 	if nDec < 10 {
 		r.Undecided("R11", "decoders#instances", "-", fmt.Sprintf("only %d hand-written decoders found, 12 confirmed by hand", nDec))
 	}
+}
+
+// blockReaches: b is reachable from a through at least one edge.
+func blockReaches(a, b *ssa.BasicBlock) bool {
+	seen := map[*ssa.BasicBlock]bool{}
+	stack := append([]*ssa.BasicBlock{}, a.Succs...)
+	for len(stack) > 0 {
+		x := stack[len(stack)-1]
+		stack = stack[:len(stack)-1]
+		if x == b {
+			return true
+		}
+		if seen[x] {
+			continue
+		}
+		seen[x] = true
+		stack = append(stack, x.Succs...)
+	}
+	return false
+}
+
+// addrRetained: the address of the local goes somewhere besides the decode call (stored, appended, converted for another use, passed on).
+func addrRetained(al *ssa.Alloc, c *ssa.Call, via ssa.Value) bool {
+	for _, rf := range *al.Referrers() {
+		switch x := rf.(type) {
+		case *ssa.DebugRef, *ssa.FieldAddr, *ssa.UnOp:
+		case *ssa.Store:
+			if x.Val == ssa.Value(al) {
+				return true
+			}
+		case *ssa.MakeInterface:
+			if ssa.Value(x) == via {
+				for _, r2 := range *x.Referrers() {
+					if r2 != ssa.Instruction(c) {
+						if _, isDbg := r2.(*ssa.DebugRef); !isDbg {
+							return true
+						}
+					}
+				}
+				continue
+			}
+			return true
+		case *ssa.Call:
+			if x != c {
+				return true
+			}
+		default:
+			return true
+		}
+	}
+	return false
 }
